@@ -197,6 +197,7 @@ class Funcs:
         self.flatten_calls = 0
         self.unflatten_calls = 0
         self.malform = None
+        self.keep = None  # when a list: every children list handed to the engine is appended (C16 mutates it)
 
     def meta(self, aux):
         if self.style == 3:
@@ -225,12 +226,18 @@ class Funcs:
             if m == 'list3':
                 return [list(ch), self.meta(node.aux), None]
         if self.style == 0:
-            return list(ch), self.meta(node.aux)
+            lst = list(ch)
+            if self.keep is not None:
+                self.keep.append(lst)
+            return lst, self.meta(node.aux)
         if self.style == 1:
             return tuple(ch), self.meta(node.aux), tuple('e%d' % i for i in range(n))
         if self.style == 2:
             return self._gen(ch), self.meta(node.aux)
-        return list(ch), self.meta(node.aux), ['k%d' % i for i in range(n)]
+        lst = list(ch)
+        if self.keep is not None:
+            self.keep.append(lst)
+        return lst, self.meta(node.aux), ['k%d' % i for i in range(n)]
 
     @staticmethod
     def _gen(ch):
